@@ -131,7 +131,7 @@ static void do_enc(char *p)
 {
   struct jpeg_compress_struct c; struct jpeg_error_mgr e;
   unsigned char *out = NULL; unsigned long outsz = 0;
-  int prec, cs, w, h, nc, hs[10], vs[10], q, fb, opt, ri, rows, mode, script, kind, psv, pt, tmix, qmix, icc, i, x, y;
+  int prec, cs, w, h, nc, hs[10], vs[10], q, fb, opt, ri, rows, mode, script, kind, psv, pt, tmix, qmix, icc, dac, tbl4, cond[12], i, x, y;
   long seed; void *img = NULL; static jpeg_scan_info scans[64];
   prec = strtol(p, &p, 10); cs = strtol(p, &p, 10); w = strtol(p, &p, 10); h = strtol(p, &p, 10);
   nc = strtol(p, &p, 10);
@@ -139,6 +139,7 @@ static void do_enc(char *p)
   q = strtol(p, &p, 10); fb = strtol(p, &p, 10); opt = strtol(p, &p, 10); ri = strtol(p, &p, 10);
   rows = strtol(p, &p, 10); mode = strtol(p, &p, 10); script = strtol(p, &p, 10); seed = strtol(p, &p, 10);
   kind = strtol(p, &p, 10); psv = strtol(p, &p, 10); pt = strtol(p, &p, 10); tmix = strtol(p, &p, 10); qmix = strtol(p, &p, 10); icc = strtol(p, &p, 10);
+  dac = strtol(p, &p, 10); tbl4 = strtol(p, &p, 10); for (i = 0; i < 12; i++) cond[i] = strtol(p, &p, 10);
   rs = (unsigned long long)seed * 2654435761ULL + 12345;
   c.err = jpeg_std_error(&e); e.error_exit = my_exit; e.emit_message = my_emit;
   jpeg_create_compress(&c);
@@ -164,6 +165,13 @@ static void do_enc(char *p)
     /* legal table-selector mixes the default parameters never use (Td != Ta, Tq swapped) */
     if (tmix >= 0) for (i = 0; i < c.num_components; i++) {
       c.comp_info[i].dc_tbl_no = (tmix >> i) & 1; c.comp_info[i].ac_tbl_no = (tmix >> (4 + i)) & 1;
+    }
+    /* arithmetic coding: conditioning destinations 0..3 and non-default DAC parameters (public cinfo fields) */
+    if ((mode == 2 || mode == 3) && tbl4 > 0) for (i = 0; i < c.num_components && i < 4; i++) {
+      c.comp_info[i].dc_tbl_no = (tbl4 >> (2 * i)) & 3; c.comp_info[i].ac_tbl_no = (tbl4 >> (8 + 2 * i)) & 3;
+    }
+    if ((mode == 2 || mode == 3) && dac) for (i = 0; i < 4; i++) {
+      c.arith_dc_L[i] = (UINT8)cond[3 * i]; c.arith_dc_U[i] = (UINT8)cond[3 * i + 1]; c.arith_ac_K[i] = (UINT8)cond[3 * i + 2];
     }
     if (qmix >= 0 && mode != 4) for (i = 0; i < c.num_components; i++) c.comp_info[i].quant_tbl_no = (qmix >> i) & 1;
     c.optimize_coding = opt;
